@@ -58,6 +58,10 @@ Check(t) ==
                                                         IN ~VolClose(v, <<3 * m[1], 3 * m[2], m[3]>>) THEN <<"product-ignores-user-set-volume-of-factor", "", Cardinality(J)>>
          ELSE IF Exact(e) /\ (t.usercount_exc # "" \/ t.usercount # 10) THEN <<"density-count-ignores-user-set-volume", "", Cardinality(J)>>
          ELSE IF ExactT(e) /\ t.usercount_exc = "" /\ t.usercount # 10 THEN <<"density-count-ignores-user-set-volume", "", Cardinality(J)>>
+         \* ... given as a tensor, through a history of density samplings (ceil(2 * 5), ceil(3 * 5) points) with the volume read after each
+         ELSE IF ExactT(e) /\ "uservol_hist" \in DOMAIN t /\ t.uservol_hist_exc = "" /\ t.uservol_hist # <<<<10, 5 * 1024>>, <<15, 5 * 1024>>>>
+              THEN <<"user-set-volume-changed-by-density-sampling", "", Cardinality(J)>>
+         ELSE IF Exact(e) /\ "uservol_hist" \in DOMAIN t /\ t.uservol_hist_exc # "" THEN <<"density-sampling-with-user-set-tensor-volume-failed", "", Cardinality(J)>>
          ELSE IF 1 \in J /\ Exact(e) /\ \E c \in {t.counts[i] : i \in DOMAIN t.counts} :
                     c.kind = "random" /\ (c.exc # "" \/ ~CountOK(c.n, c.dn, c.dd, Vol(e, env(1)))) THEN <<"density-count(random)", "", Cardinality(J)>>
          \* (the triangle's random sampler rejects, its grid is a regular barycentric grid: the grid count is judged)
